@@ -673,3 +673,8 @@ MUTANTS += [
     signed int valid:2;
     size_t number;""", 'expect': None},
 ]
+
+
+# SESSION7b additions to the claim (round 8, DESIGN 12.6)
+CLAIM['technique'] += '; parameter-intact lint on the functions the header parsers call'
+CLAIM['text'] += ' C13-i: a function handed a decoded value stores that value.'
